@@ -238,8 +238,8 @@ def _consts(tree, src_text):
         raise Unparsable("order_stats('c') does not return binom.sf(r - 1, n, 1 - p)")
     # 'r': scalar rule
     def scalar_rule(stmts, var, ret, w):
-        ifs = [s for s in stmts if isinstance(s, ast.If)]
-        if not (len(ifs) == 1 and _same(ifs[0].test, "%s.ndim == 0" % var) and len(ifs[0].body) == 1
+        ifs = [s for s in stmts if isinstance(s, ast.If) and _same(s.test, "%s.ndim == 0" % var)]
+        if not (len(ifs) == 1 and len(ifs[0].body) == 1
                 and isinstance(ifs[0].body[0], ast.Return) and _same(ifs[0].body[0].value, ret) and not ifs[0].orelse):
             raise Unparsable("order_stats('%s'): scalar rule is not `if %s.ndim == 0: return %s`" % (w, var, ret))
     scalar_rule(br["r"], "r", "int(r[()])", "r")
@@ -297,7 +297,10 @@ def _consts(tree, src_text):
 # ----------------------------------------------------------------------------------------------
 # effect skeletons
 
-_FRESH_NP = {"sqrt", "exp", "empty", "ceil", "any", "broadcast"}
+_FRESH_NP = {"sqrt", "exp", "empty", "ceil", "any", "broadcast",
+             # further functions that return new objects (never views of their arguments) unless given out=/copy=
+             "zeros", "ones", "full", "empty_like", "zeros_like", "ones_like", "array", "where", "floor", "round", "log",
+             "abs", "all", "isnan", "isfinite", "maximum", "minimum", "square", "power", "errstate"}
 _FRESH_MODS = {"norm": {"ppf", "cdf"}, "nct": {"ppf"}, "chi2": {"ppf"}, "binom": {"ppf", "sf", "cdf"}, "warnings": {"warn"}}
 _FRESH_NAMES = {"betainc", "brentq", "abs", "int", "_getr", "_func", "_run_brentq"}
 _FRESH_METHODS = {"astype"}
